@@ -66,6 +66,7 @@ PROFILES = {
     'contention': {'vehicles': 4, 'stations': 1, 'bases': 1, 'max_plugs': 1, 'max_stalls': 1, 'valid_p': 0.85, 'p_full_step': 0.3},
     'requests': {'vehicles': 3, 'p_full_step': 0.8, 'valid_p': 0.9},
     'fleets': {'fleets': ['fa', 'fb'], 'valid_p': 0.6},
+    'fullsteps': {'p_full_step': 1.0, 'vehicles': 3, 'valid_p': 0.9},
     'rawops': {'p_raw': 1.0},
     'rawmix': {'p_raw': 0.25, 'stations': 2, 'bases': 1},
 }
@@ -93,6 +94,7 @@ def run(seed, n_cases, n_ops, profile_name='generic', use_cache=True, coq=True, 
         rng = random.Random(seed * 100003 + c)
         try:
             w = gen.gen_world(rng, profile)
+            w.full_steps_only = profile.get('p_full_step') == 1.0
             stream = gen.OpStream(rng, profile)
             obs = monitors.all_observers(w)
             body, ops, vs = hw.run_case_impl(w, n_ops, stream, observers=obs)
@@ -121,7 +123,7 @@ def run(seed, n_cases, n_ops, profile_name='generic', use_cache=True, coq=True, 
             samples.append({'case': c, 'seed': seed, 'delta_s': int(w.sim.sim_timestep_duration_seconds), 'vehicles': len(w.sim.vehicles),
                             'ops': [gen.op_json(w, o) for o in ops[:6]]})
     impl_s = time.time() - t0
-    disagreements, coq_errors = [], []
+    disagreements, coq_errors, knife_edges = [], [], []
     coq_s = 0.0
     if coq and terms:
         t1 = time.time()
@@ -133,9 +135,33 @@ def run(seed, n_cases, n_ops, profile_name='generic', use_cache=True, coq=True, 
             if r is None or r < 0:
                 continue
             c, w, ops = worlds[idx]
-            d = {'case': c, 'op': r, 'op_json': gen.op_json(w, ops[r]), 'props': list(STEP_PROPS), 'path': None, 'values': None}
+            # numeric knife-edge rule (DESIGN §2.4): restart the model from the implementation's own state before the
+            # disagreeing op; if the rest of the case then agrees, the difference came from rounding drift meeting a
+            # threshold — counted, not reported.  A disagreement that survives the re-synchronisation is genuine.
+            base, genuine = r, True
+            for _ in range(4):
+                try:
+                    rb = hw.resync_body(w, base)
+                    rr, rerrs, _ = coqrun.eval_terms([hw.case_term(rb)], shard=1, jobs=1)
+                except Exception as ex:
+                    break
+                if rerrs or rr[0] is None:
+                    break
+                if rr[0] < 0:
+                    genuine = False
+                    break
+                if rr[0] == 0:
+                    break
+                base += rr[0]
+            if not genuine:
+                knife_edges.append({'case': c, 'op': r})
+                continue
+            bodies[idx] = hw.resync_body(w, base).replace('build_sim_at', 'build_sim_at')
+            r_local = 0
+            d = {'case': c, 'op': base, 'op_json': gen.op_json(w, ops[base]), 'props': list(STEP_PROPS), 'path': None, 'values': None}
             try:
-                out = coqrun.eval_raw(hw.diag_term(bodies[idx], r))
+                out = coqrun.eval_raw(hw.diag_term(bodies[idx], r_local))
+                r = base
                 model = tokdiff.parse(out[out.index('=') + 1:out.rindex(': tok')])
                 impl = tokdiff.parse(w.expected[r])
                 fd = tokdiff.first_diff(model, impl)
@@ -147,7 +173,7 @@ def run(seed, n_cases, n_ops, profile_name='generic', use_cache=True, coq=True, 
             disagreements.append(d)
     out = {'seed': seed, 'profile': profile_name, 'cases': len(terms), 'skipped': skipped, 'ops': sum(dist.values()),
            'op_distribution': dict(dist), 'instruction_table': dict(table), 'distinct_nontrivial': len(nontrivial),
-           'violations': viol, 'disagreements': disagreements, 'coq_errors': coq_errors, 'samples': samples,
+           'violations': viol, 'disagreements': disagreements, 'knife_edges': knife_edges, 'coq_errors': coq_errors, 'samples': samples,
            'impl_s': round(impl_s, 2), 'coq_s': round(coq_s, 2), 'cached': False}
     json.dump(out, open(cpath, 'w'), default=str)
     return json.loads(json.dumps(out, default=str))
@@ -158,5 +184,6 @@ def replay_case(seed, case, n_ops, profile_name):
     rng = random.Random(seed * 100003 + case)
     profile = PROFILES[profile_name]
     w = gen.gen_world(rng, profile)
+    w.full_steps_only = profile.get('p_full_step') == 1.0
     body, ops, vs = hw.run_case_impl(w, n_ops, gen.OpStream(rng, profile), observers=monitors.all_observers(w))
     return w, ops, [{'case': case, 'op': k, 'property': p, 'kind': kind, 'detail': d} for k, (p, kind, d) in vs]
